@@ -25,11 +25,11 @@ CLAIMS = {
  "C11": ("proof", "5/C11", "Proved unbounded: load_action_list returns, for a scenario with any number of hosts / exploits / escalations, exactly the documented enumeration - block h of the list holds the four scans, every exploit and every escalation of host h in definition order with the scenario's cost, probability, service / process, OS and access (record-list loop invariants for the three loops; the flat position host*K+j is kept linear by a ghost block-start function whose two properties - blocks do not overlap, block start = host*K - are proved by induction as separate closed lemma obligations), length N*K = advertised size; parameterised decode (incl. wrap-around, undefined pairs -> zero-cost no-op), nvec, flat index->action, action mask (loop invariant), exploit_map / privesc_map hold exactly the first definition of every (service|process, os) pair for tables of any size (nested-dict loop invariant). The same contracts are re-checked on bounded concrete-structured scenarios (real loops unrolled) for replayable counterexamples."),
  "C12": ("proof", "5/C12", "Non-interference: the dynamics outputs of generative_step/step are proved equal to themselves with the three mode flags renamed (solver-discharged reads-frame), info is the action result, observation construction is proved read-only, and parameterised decoding yields the scenario's definitions (same records as the flat list)."),
  "C14": ("other", "5/C14", "Dynamics: the helper contracts (spec.* postconditions, discharged unbounded) fix every output of perform_action/reset as a function of scenario, state, action and the one draw, so equal seeds give equal trajectories given NumPy's seeded stream (assumed); a generic frame obligation on every function under contract forbids drawing from / seeding the global RNG outside the declared stochastic functions. Generation: BOUNDED - same seed twice in-process, an order-permuting set shim (two iteration orders) over the parameter grid, and a PYTHONHASHSEED sweep in sub-processes over generated benchmarks; fingerprints of hosts, firewall, exploits, escalations, sensitive hosts must agree."),
- "C15": ("other", "5/C15", "Proved unbounded (all num_hosts, all subnet counts): _generate_subnets (layout, sizes sum to num_hosts+1), _generate_topology (loop invariant: symmetric, self-connected, only DMZ public, user tree), _generate_address_space_bounds, _generate_sensitive_hosts (exactly (2,0) and one user host, requested values), _get_action_probs (length, ranges, requested values). BOUNDED stand-in for the stochastic functions: the full well-formedness postcondition is evaluated as a run-time contract on every scenario the real generator returns over a parameter grid x seeds; plus unit-level run-time contracts on the two name-collision retry loops (_generate_exploits, _generate_privescs) over many seeds; three recorded known findings with witnesses (alpha_V = 1, exploit names exhausted, escalation names exhausted)."),
+ "C15": ("other", "5/C15", "Proved unbounded (all num_hosts, all subnet counts): _generate_subnets (layout, sizes sum to num_hosts+1), _generate_topology (loop invariant: symmetric, self-connected, only DMZ public, user tree), _generate_address_space_bounds, _generate_sensitive_hosts (exactly (2,0) and one user host, requested values), _get_action_probs (length, ranges, requested values), _convert_to_service_map / _process_map / _os_map (dict-building loop invariants: keys are the name list in list order, values the drawn configuration), _get_host_value, generate_scenario (a generator object of its own, parameters handed through). BOUNDED stand-in for the stochastic functions: the full well-formedness postcondition is evaluated as a run-time contract on every scenario the real generator returns over a parameter grid x seeds; plus unit-level run-time contracts on the two name-collision retry loops (_generate_exploits, _generate_privescs) over many seeds; three recorded known findings with witnesses (alpha_V = 1, exploit names exhausted, escalation names exhausted)."),
  "C16": ("other", "5/C16", "Proved unbounded: G1 (topology is the DMZ/sensitive/user tree with parent(k) < k, DMZ public). BOUNDED stand-in for G2-G4 and the conclusion: for every generated scenario of the grid and every shipped benchmark a plan is computed by monotone closure on the real environment with all stochastic actions succeeding and replayed through NASimEnv.step, which must end terminated. The unbounded induction lemma over generator postconditions (DESIGN 5/C16) was not built."),
  "C20": ("other", "5/C20", "Proved unbounded: score bound = sum of sensitive values + sum of discovery values - hops (sum-loop invariants), and the C04/C05 obligations it rests on. BOUNDED exhaustive (all symmetric topologies on <= 5 subnets, <= 3 sensitive subnets) plus structured larger instances (chains, stars, rings, seeded random graphs with up to 8 sensitive subnets, Held-Karp reference): hop function equals its documented quantity; hops <= Steiner bound fails on branching topologies (known finding). NOT decided: the whole-episode inequality (optimisation over histories)."),
- "C17": ("other", "5/C17", "Proved unbounded (lists of any length with symbolically typed entries): the leaf validators _validate_subnets, _validate_topology (nested loop invariants), _validate_os/_services/_processes, _validate_scan_cost, _parse_step_limit accept every valid value. Whole loader: BOUNDED stand-in: the real loader is executed symbolically on concrete-structured documents (nine shipped files + synthetic ones covering one host configuration shared by several hosts (YAML anchor/alias), asymmetric topology, several public subnets, empty allow-lists, prob 1.0, no OS, empty escalation section, no step limit, negative/fractional values, host firewalls) whose numeric leaves are symbolic over the documented ranges; obligations: never raises, and the scenario equals the document field by field. Counterexamples are concretised to YAML and replayed through the real load_scenario."),
- "C18": ("other", "5/C18", "Proved unbounded: a normal return of each leaf validator (subnets, topology, name lists, scan costs, step limit) implies its rule for lists of any length. Whole loader: BOUNDED stand-in: for each of ~75 rule violations of the catalogue a transformer breaks exactly that rule in every base document (symbolic leaf where the rule is numeric); on every symbolic path the real loader must raise. Replay: concretised YAML through the real load_scenario."),
+ "C17": ("other", "5/C17", "Proved unbounded (lists of any length with symbolically typed entries): the leaf validators _validate_subnets, _validate_topology (nested loop invariants), _validate_os/_services/_processes, _validate_scan_cost, _parse_step_limit accept every valid value; _validate_sensitive_hosts, _is_valid_firewall_setting, _contains_all_required_firewalls, _has_all_host_addresses, _validate_host_address, _validate_firewall (modular, against the helper contracts), _construct_host_config (name maps in scenario list order), _get_host_value, _parse_sensitive_hosts (re-keying by the parsed address) for sections of any size over an assumed contract of str()/eval() on address strings; load_scenario (a loader object of its own, file and name handed through). Whole loader: BOUNDED stand-in: the real loader is executed symbolically on concrete-structured documents (nine shipped files + synthetic ones covering one host configuration shared by several hosts (YAML anchor/alias), asymmetric topology, several public subnets, empty allow-lists, prob 1.0, no OS, empty escalation section, no step limit, negative/fractional values, host firewalls) whose numeric leaves are symbolic over the documented ranges; obligations: never raises, and the scenario equals the document field by field. Counterexamples are concretised to YAML and replayed through the real load_scenario."),
+ "C18": ("other", "5/C18", "Proved unbounded: a normal return of each leaf validator (subnets, topology, name lists, scan costs, step limit, sensitive hosts, firewall rule values, firewall completeness, host-address keys, host-configuration completeness, the firewall section as a whole) implies its rule for lists / sections / topologies of any size. Whole loader: BOUNDED stand-in: for each of ~75 rule violations of the catalogue a transformer breaks exactly that rule in every base document (symbolic leaf where the rule is numeric); on every symbolic path the real loader must raise. Replay: concretised YAML through the real load_scenario."),
  "C19": ("other", "5/C19", "Global-heap frame obligations (no undeclared class-attribute/module-global reads or writes) are discharged for every operation; every constructor path installs Layout(scenario) whatever the previous global state; make_benchmark_scenario leaves no stale seed. Equal-layout independence lemma discharged; the any-layout lemma is REFUTED and recorded as a known finding (witness replayed on every run)."),
  "C13": ("proof", "5/C13", "Purity is a frame obligation over the heap (input tensor cell, env fields, current state, last obs); freshness is an allocation-identity obligation; step/generative_step agreement is a postcondition of NASimEnv.step."),
 }
